@@ -412,6 +412,11 @@ type fx struct {
 	tables     map[Term]*tableInfo
 	candActive map[CandKey]bool
 	candFail   map[CandKey]bool
+	strFrom    map[Term]strOrigin // strings produced by string(bytes): the byte memory and address they were copied from
+}
+
+type strOrigin struct {
+	arr, ptr Term
 }
 
 func (fx *fx) heapSort(key string) string {
